@@ -21,8 +21,8 @@ def incremental(pid, tier, replay):
     if replay:
         return engine.engine_replay(pid, replay)
     fams = _fams(
-        [dict(fam="inc", K=6, CH=4), dict(fam="inc2", K=4, CH=4), dict(fam="partial", K=4, CH=4), dict(fam="rand", K=12, CH=4)],
-        [dict(fam="inc", K=60, CH=30), dict(fam="inc2", K=30, CH=12), dict(fam="partial", K=30, CH=12), dict(fam="rand", K=300, CH=8)], tier)
+        [dict(fam="inc", K=6, CH=4), dict(fam="inc2", K=4, CH=4), dict(fam="partial", K=4, CH=4), dict(fam="rand", K=12, CH=4), dict(fam="editrun", K=2, CH=2)],
+        [dict(fam="inc", K=30, CH=12), dict(fam="inc2", K=20, CH=8), dict(fam="partial", K=20, CH=8), dict(fam="rand", K=80, CH=6), dict(fam="editrun", K=10, CH=4)], tier)
     return engine.engine_check(pid, fams, tier, maxruns=16 if tier == "quick" else 64)
 
 
@@ -450,3 +450,20 @@ def dyndep(pid, tier, replay):
         return engine.engine_replay(pid, replay)
     fams = _fams([dict(fam="dyn", K=1, CH=6)], [dict(fam="dyn", K=1, CH=40)], tier)
     return engine.engine_check(pid, fams, tier, maxruns=24 if tier == "quick" else 200, props=["C11"])
+
+
+@reg("C17")
+def cycles(pid, tier, replay):
+    if replay:
+        return engine.engine_replay(pid, replay)
+    fams = _fams([dict(fam="cyc", K=6, CH=1), dict(fam="sched", K=3, CH=1), dict(fam="dyn", K=1, CH=2)],
+                 [dict(fam="cyc", K=60, CH=1), dict(fam="sched", K=20, CH=1), dict(fam="dyn", K=1, CH=10), dict(fam="rand", K=40, CH=3)], tier)
+    return engine.engine_check(pid, fams, tier, maxruns=8 if tier == "quick" else 32, props=["C17"])
+
+
+@reg("C19")
+def dryrun(pid, tier, replay):
+    if replay:
+        return engine.engine_replay(pid, replay)
+    fams = _fams([dict(fam="dry", K=4, CH=4)], [dict(fam="dry", K=40, CH=12)], tier)
+    return engine.engine_check(pid, fams, tier, maxruns=8 if tier == "quick" else 32, props=["C19"])
